@@ -295,6 +295,66 @@ func (a *nilAn) loadStatus(ld *ssa.UnOp, fn *ssa.Function, b *ssa.BasicBlock, de
 	case *ssa.Parameter:
 		// *p where p is e.g. *ValueExpr parameter: the pointee interface may be nil
 		return nsNilable, 0, "pointee of " + addr.Name()
+	case *ssa.FreeVar:
+		// a variable of the enclosing function captured by the closure: what the enclosing
+		// function stores into it (the closure itself must not store into it)
+		parent := fn.Parent()
+		if parent == nil {
+			break
+		}
+		idx := -1
+		for i, fv := range fn.FreeVars {
+			if fv == addr {
+				idx = i
+			}
+		}
+		if addr.Referrers() != nil {
+			for _, r := range *addr.Referrers() {
+				if st, ok := r.(*ssa.Store); ok && st.Addr == ssa.Value(addr) {
+					return nsNilable, 0, "captured variable " + addr.Name() + " (written by the closure)"
+				}
+			}
+		}
+		var bound *ssa.Alloc
+		nmc := 0
+		for _, pb := range parent.Blocks {
+			for _, in := range pb.Instrs {
+				if mc, ok := in.(*ssa.MakeClosure); ok && mc.Fn == ssa.Value(fn) && idx >= 0 && idx < len(mc.Bindings) {
+					nmc++
+					bound, _ = mc.Bindings[idx].(*ssa.Alloc)
+				}
+			}
+		}
+		if nmc != 1 || bound == nil || bound.Referrers() == nil {
+			break
+		}
+		n := 0
+		for _, r := range *bound.Referrers() {
+			st, ok := r.(*ssa.Store)
+			if !ok || st.Addr != ssa.Value(bound) {
+				continue
+			}
+			n++
+			if s, _, _ := a.status(st.Val, parent, st.Block(), depth+1); s != nsNonNil {
+				return nsNilable, 0, "captured variable " + addr.Name()
+			}
+		}
+		// other closures of the parent that capture the same variable must not write it either
+		for _, an := range parent.AnonFuncs {
+			for _, ab := range an.Blocks {
+				for _, in := range ab.Instrs {
+					if st, ok := in.(*ssa.Store); ok {
+						if fv, ok := st.Addr.(*ssa.FreeVar); ok && fv.Name() == addr.Name() {
+							return nsNilable, 0, "captured variable " + addr.Name() + " (written by a closure)"
+						}
+					}
+				}
+			}
+		}
+		if n > 0 {
+			return nsNonNil, 0, ""
+		}
+		return nsNilable, 0, "captured variable " + addr.Name()
 	}
 	if a.cfg.OnlyOptional != nil {
 		return nsNonNil, 0, ""
